@@ -470,6 +470,8 @@ pub fn run(case: &str, ctx: &mut Ctx) -> String {
             run_tc(e, &ty, ctx)
         }
         Some("pager") => pager::run(case, ctx),
+        Some("bindrow") => run_bindrow(case, ctx),
+        Some("frame") if hd.len() == 2 => run_frame(hd[1], ctx),
         Some("rows") if segs.len() == 4 && hd.len() == 2 => {
             let toks: Vec<&str> = segs[2].split_whitespace().collect();
             let (Some(n), Ok(nrows)) = (toks.first().and_then(|s| s.parse::<usize>().ok()), segs[3].parse::<usize>()) else { return "bad-case".to_owned() };
